@@ -147,7 +147,8 @@ fn history(seed: u64, idx: u64, virtual_clock: bool) -> Local {
                 }
             }
             _ => {
-                let d = *r.pick(&[0u64, 400, 400, 1100, 1100, 2100]);
+                // under Miri the clock is virtual (sleeps cost nothing): also cross the 1000-second TTL
+                let d = if cfg!(miri) { *r.pick(&[0u64, 400, 1100, 2100, 999_500, 1_000_600]) } else { *r.pick(&[0u64, 400, 400, 1100, 1100, 2100]) };
                 std::thread::sleep(Duration::from_millis(d));
                 out.log.push(format!("{}: sleep {} ms", step, d));
             }
